@@ -10,6 +10,12 @@ CHECKS = {
  "C12": dict(technique="runtime monitoring of the real parser/reader: panic+span monitor on hostile texts, print/parse and write/read round-trip oracles",
              text="Exploration: steel-parser is driven directly on seeded hostile texts (panic hook, process-death detection, span-in-bounds monitor); parse(print(parse t)) is compared with parse t with spans erased on shipped/well-formed programs; generated data are written and read back through the real engine and compared by canonical rendering (doubles by bits).",
              note="Trusted: the harness's Debug-based tree comparison and canonical rendering. Invalid UTF-8 cannot reach the &str API and is lossy-decoded first.", ref="DESIGN.md §5 C12"),
+ "C07": dict(technique="runtime monitoring under hostile inputs: panic hook + child exit status + before/after probe comparison on the same engine; fork-per-case isolation",
+             text="Exploration: seeded hostile source texts (singly and as multi-unit histories) and calls of every non-effectful procedure bound in a fresh engine with arguments of every value kind and boundary magnitudes are run on the real engine in forked children; a panic reaching the host boundary, a signal/abort/stack overflow, or a probe program answering differently after the input than before is a violation.",
+             note="Trusted: fork isolation and the panic hook. Allocation-failure aborts under the address-space cap and time-outs are inconclusive, not crashes. Externally effectful/blocking builtins are deny-listed.", ref="DESIGN.md §5 C07"),
+ "C09": dict(technique="invariant at a hook: frame/operand stack depth sampled inside running loops via #%verif-stack-depth; process-survival and peak-RSS monitors at n and 10n iterations",
+             text="Exploration: generated tail-loop shapes are run for 10^3..10^5 (quick) / 10^7 (thorough) iterations with JIT on and off; depth samples taken inside the loop at the first, middle and last iteration must stay within a 16-slot slack, the result must equal the closed form, the process must survive, peak RSS at 10n may exceed that at n by at most 48 MB; deep non-tail recursion must end in an error value.",
+             note="Trusted: the depth hook reports lengths of the VM's frame and operand stacks; native stack use is covered only by process survival.", ref="DESIGN.md §5 C09"),
 }
 NOT_YET = "check not built yet in this session (planned in DESIGN.md §5); no claim is made"
 man = {
